@@ -21,91 +21,121 @@ func thru() {
 	rad := []int{len(gaps), len(gaps), len(gaps)}
 	for {
 		for variant := 0; variant < 5; variant++ {
-			ctx.Eval()
-			ctx.Add("thru_histories", 1)
-			drv := testdrv.New("thru")
-			ins, _ := drv.Ins()
-			outs, _ := drv.Outs()
-			out := outs[0]
-			var got []ls.Delivered
-			stop, err := midi.ListenTo(ins[0], func(m midi.Message, ts int32) {
-				got = append(got, ls.Delivered{Msg: append([]byte(nil), m...), TS: ts})
-				if len(m) == 3 && m[0]&0xF0 == 0x90 && m[1] < 64 {
-					switch variant {
-					case 0:
-						out.Send([]byte{m[0], m[1] + 64, m[2]})
-					case 1: // the answer uses running status and is followed by a real-time byte
-						out.Send([]byte{0x80 | m[0]&0x0F, m[1] + 64, 0x00, m[1] + 65, 0x00, 0xFA})
-					case 2: // the answer arrives in two pieces
-						out.Send([]byte{m[0], m[1] + 64})
-						out.Send([]byte{m[2]})
-					case 3: // the answer is data bytes only: running status of the message being handled
-						out.Send([]byte{m[1] + 64, m[2]})
+			for _, viaSendTo := range []bool{false, true} {
+				ctx.Eval()
+				ctx.Add("thru_histories", 1)
+				drv := testdrv.New("thru")
+				ins, _ := drv.Ins()
+				outs, _ := drv.Outs()
+				// every history once with the port's own Send and once with the function
+				// midi.SendTo hands out for it (used by the caller and by the call-back)
+				out := &sender{port: outs[0]}
+				if viaSendTo {
+					f, serr := midi.SendTo(outs[0])
+					if serr != nil {
+						ctx.Guard(false, "thru: SendTo: %v", serr)
+						return
 					}
+					out.fn = f
 				}
-				if variant == 4 && len(m) == 3 && m[0]&0xF0 == 0x90 && m[1] < 96 {
-					// a chain: the answer is answered again, twice (keys k, k+32, k+64, k+96)
-					out.Send([]byte{m[0], m[1] + 32, m[2]})
-				}
-			})
-			if err != nil || out.Open() != nil {
-				ctx.Guard(false, "thru: cannot set up the loopback: %v", err)
-				return
-			}
-			var want []ls.Delivered
-			var acc int32
-			var sl []int32
-			var c engine.Caught
-			for i := 0; i < 3 && !c.Panicked; i++ {
-				d := gaps[idx[i]]
-				sl = append(sl, d)
-				acc += d
-				drv.Sleep(time.Duration(d) * time.Millisecond)
-				key := byte(10 + i)
-				msg := []byte{0x90 + byte(i), key, 100}
-				if i == 2 {
-					msg = []byte{0xB0, 7, 99} // no answer for this one
-				}
-				want = append(want, ls.Delivered{Msg: msg, TS: acc})
-				if i < 2 && variant == 4 {
-					for step := byte(32); step <= 96; step += 32 {
-						want = append(want, ls.Delivered{Msg: []byte{msg[0], key + step, 100}, TS: acc})
+				var got []ls.Delivered
+				stop, err := midi.ListenTo(ins[0], func(m midi.Message, ts int32) {
+					got = append(got, ls.Delivered{Msg: append([]byte(nil), m...), TS: ts})
+					if len(m) == 3 && m[0]&0xF0 == 0x90 && m[1] < 64 {
+						switch variant {
+						case 0:
+							out.Send([]byte{m[0], m[1] + 64, m[2]})
+						case 1: // the answer uses running status and is followed by a real-time byte
+							out.Send([]byte{0x80 | m[0]&0x0F, m[1] + 64, 0x00, m[1] + 65, 0x00, 0xFA})
+						case 2: // the answer arrives in two pieces
+							out.Send([]byte{m[0], m[1] + 64})
+							out.Send([]byte{m[2]})
+						case 3: // the answer is data bytes only: running status of the message being handled
+							out.Send([]byte{m[1] + 64, m[2]})
+						}
 					}
-				}
-				if i < 2 {
-					switch variant {
-					case 0, 2, 3:
-						want = append(want, ls.Delivered{Msg: []byte{msg[0], key + 64, 100}, TS: acc})
-					case 1:
-						want = append(want, ls.Delivered{Msg: []byte{0x80 | msg[0]&0x0F, key + 64, 0}, TS: acc},
-							ls.Delivered{Msg: []byte{0x80 | msg[0]&0x0F, key + 65, 0}, TS: acc}, ls.Delivered{Msg: []byte{0xFA}, TS: acc})
+					if variant == 4 && len(m) == 3 && m[0]&0xF0 == 0x90 && m[1] < 96 {
+						// a chain: the answer is answered again, twice (keys k, k+32, k+64, k+96)
+						out.Send([]byte{m[0], m[1] + 32, m[2]})
 					}
+				})
+				if err != nil || outs[0].Open() != nil {
+					ctx.Guard(false, "thru: cannot set up the loopback: %v", err)
+					return
 				}
-				c = engine.Catch(func() { out.Send(msg) })
-			}
-			stop()
-			sig, what := "", ""
-			switch {
-			case c.Panicked:
-				sig, what = c.Sig+":thru", "Send panicked with a call-back that sends: "+c.Value
-			case len(got) != len(want):
-				sig, what = "thru:count", fmt.Sprintf("delivered [%s], expected [%s]", ls.RenderDeliveries(got), ls.RenderDeliveries(want))
-			default:
-				for i := range want {
-					if string(got[i].Msg) != string(want[i].Msg) {
-						sig, what = "thru:content", fmt.Sprintf("delivered [%s], expected [%s]", ls.RenderDeliveries(got), ls.RenderDeliveries(want))
+				var want []ls.Delivered
+				var acc int32
+				var sl []int32
+				var c engine.Caught
+				hung := false
+				for i := 0; i < 3 && !c.Panicked; i++ {
+					d := gaps[idx[i]]
+					sl = append(sl, d)
+					acc += d
+					drv.Sleep(time.Duration(d) * time.Millisecond)
+					key := byte(10 + i)
+					msg := []byte{0x90 + byte(i), key, 100}
+					if i == 2 {
+						msg = []byte{0xB0, 7, 99} // no answer for this one
+					}
+					want = append(want, ls.Delivered{Msg: msg, TS: acc})
+					if i < 2 && variant == 4 {
+						for step := byte(32); step <= 96; step += 32 {
+							want = append(want, ls.Delivered{Msg: []byte{msg[0], key + step, 100}, TS: acc})
+						}
+					}
+					if i < 2 {
+						switch variant {
+						case 0, 2, 3:
+							want = append(want, ls.Delivered{Msg: []byte{msg[0], key + 64, 100}, TS: acc})
+						case 1:
+							want = append(want, ls.Delivered{Msg: []byte{0x80 | msg[0]&0x0F, key + 64, 0}, TS: acc},
+								ls.Delivered{Msg: []byte{0x80 | msg[0]&0x0F, key + 65, 0}, TS: acc}, ls.Delivered{Msg: []byte{0xFA}, TS: acc})
+						}
+					}
+					// (watched: a send function that waits for itself never comes back)
+					done := make(chan engine.Caught, 1)
+					go func() { done <- engine.Catch(func() { out.Send(msg) }) }()
+					select {
+					case c = <-done:
+					case <-time.After(30 * time.Second):
+						hung = true
+					}
+					if hung {
 						break
 					}
-					if got[i].TS != want[i].TS {
-						sig, what = "thru:timestamp", fmt.Sprintf("delivered [%s], expected [%s]", ls.RenderDeliveries(got), ls.RenderDeliveries(want))
-						break
+				}
+				if hung {
+					if ctx.SigCount("thru:hang") < 3 {
+						ctx.Violation("thru:hang", map[string]interface{}{"kind": "thru", "gaps_ms": sl, "variant": variant, "via_send_to": viaSendTo,
+							"what": "a Send whose listener sends on the same port from inside its call-back did not return within 30 s"})
+					}
+					return // every further history would wait as long
+				}
+				stop()
+				sig, what := "", ""
+				switch {
+				case c.Panicked:
+					sig, what = c.Sig+":thru", "Send panicked with a call-back that sends: "+c.Value
+				case len(got) != len(want):
+					sig, what = "thru:count", fmt.Sprintf("delivered [%s], expected [%s]", ls.RenderDeliveries(got), ls.RenderDeliveries(want))
+				default:
+					for i := range want {
+						if string(got[i].Msg) != string(want[i].Msg) {
+							sig, what = "thru:content", fmt.Sprintf("delivered [%s], expected [%s]", ls.RenderDeliveries(got), ls.RenderDeliveries(want))
+							break
+						}
+						if got[i].TS != want[i].TS {
+							sig, what = "thru:timestamp", fmt.Sprintf("delivered [%s], expected [%s]", ls.RenderDeliveries(got), ls.RenderDeliveries(want))
+							break
+						}
 					}
 				}
+				if sig != "" && ctx.SigCount(sig) < 10 {
+					ctx.Violation(sig, map[string]interface{}{"kind": "thru", "gaps_ms": sl, "variant": variant, "via_send_to": viaSendTo, "what": what})
+				}
+				ctx.NontrivialN(1)
 			}
-			if sig != "" && ctx.SigCount(sig) < 10 {
-				ctx.Violation(sig, map[string]interface{}{"kind": "thru", "gaps_ms": sl, "variant": variant, "what": what})
-			}
-			ctx.NontrivialN(1)
 		}
 		if !engine.Odometer(idx, rad) {
 			break
@@ -225,4 +255,18 @@ func fractions() {
 			ctx.NontrivialN(1)
 		}
 	}
+}
+
+// sender sends through the port itself or through the function midi.SendTo
+// returned for it.
+type sender struct {
+	port interface{ Send([]byte) error }
+	fn   func(midi.Message) error
+}
+
+func (s *sender) Send(b []byte) error {
+	if s.fn != nil {
+		return s.fn(midi.Message(b))
+	}
+	return s.port.Send(b)
 }
